@@ -375,6 +375,8 @@ impl OutstationSession {
         loop {
             if let Err(err) = self.run_idle_state(io, reader, writer, database).await {
                 self.state.reset();
+                // events of a response that was never confirmed must be offered again
+                database.reset();
                 return err;
             }
         }
